@@ -196,6 +196,9 @@ func genC09(c *Ctx) {
 			if ref == nil || rep.PreEncrypted {
 				continue
 			}
+			if rep.ContentType == "video" {
+				ref = rep // a video representation is numbered by its own segments (it may have fewer per loop than the reference)
+			}
 			n := len(ref.Segments)
 			for _, k := range []int{0, n - 1, n, 3*n + 1} {
 				atoMS := a.SegmentDurMS * r.Pick(1, 2, 3) / 4
@@ -213,7 +216,11 @@ func genC09(c *Ctx) {
 				now := av + int64(a.SegmentDurMS) + 100 // after the end of the pacing schedule (the tail chunk is paced with chunkDur)
 				segID := strconv.Itoa(e.nr)
 				whole := doLive("GET", segURL(a, "-", rep.ID, segID, strconv.FormatInt(now, 10)))
-				cfg := fmt.Sprintf("ato=%d,chunkdur=0.25", atoMS)
+				// the chunk duration parameter: below what the offset leaves, between that and the segment duration, above it
+				left := a.SegmentDurMS - atoMS
+				cd := r.PickS("0.25", "0.25", fmt.Sprintf("%.3f", float64(left)/1000+0.25), fmt.Sprintf("%.3f", float64(left+a.SegmentDurMS)/2000),
+					fmt.Sprintf("%.3f", float64(a.SegmentDurMS)/1000-0.1), fmt.Sprintf("%d", a.SegmentDurMS/1000+1), "1000")
+				cfg := fmt.Sprintf("ato=%d,chunkdur=%s", atoMS, cd)
 				chunked := doLive("GET", segURL(a, cfg, rep.ID, segID, strconv.FormatInt(now, 10)))
 				c.Count("ll-compared")
 				rp := []string{"# GET " + segURL(a, cfg, rep.ID, segID, strconv.FormatInt(now, 10))}
